@@ -19,7 +19,7 @@ import (
 
 // Call is one graph-construction call of a history.
 type Call struct {
-	Op string `json:"op"` // add | dep | retries
+	Op string `json:"op"` // add | dep | retries | add2 (AddTask of a second Task object with the same ID) | sort (DepthFirstSort) | run (Run, judged, before the history goes on)
 	A  int    `json:"a"`
 	B  int    `json:"b"`
 }
@@ -30,6 +30,12 @@ func (c Call) String() string {
 		return fmt.Sprintf("AddTask(%s)", tid(c.A))
 	case "dep":
 		return fmt.Sprintf("TaskDependsOn(%s,%s)", tid(c.A), tid(c.B))
+	case "add2":
+		return fmt.Sprintf("AddTask(%s')", tid(c.A))
+	case "sort":
+		return "DepthFirstSort()"
+	case "run":
+		return "Run()"
 	default:
 		return fmt.Sprintf("TaskRetries(%s,%d)", tid(c.A), c.B)
 	}
@@ -46,6 +52,7 @@ type Scenario struct {
 	BigOutput  bool       `json:"big_output,omitempty"`  // every task attempt writes more than 64 KiB
 	Shared     []int      `json:"shared,omitempty"`      // second graph run concurrently, made of these (shared) tasks, no edges
 	SharedMode string     `json:"shared_mode,omitempty"` // mode of the second graph (par | serial)
+	Shared2    bool       `json:"shared2,omitempty"`     // the second graph is made of the second Task objects (the ones add2 hands to the first graph)
 	Rerun      bool       `json:"rerun,omitempty"`       // call Run a second time on the same graph
 	History    bool       `json:"history,omitempty"`     // construction-history scenario (C16a): edges are whatever the history declares
 	Canon      bool       `json:"canon,omitempty"`       // the graph is the representative of its isomorphism class
@@ -53,6 +60,19 @@ type Scenario struct {
 }
 
 func tid(i int) string { return string(rune('a' + i)) }
+
+// Multi reports whether Run is called more than once on the graph.
+func (sc *Scenario) Multi() bool {
+	if sc.Rerun {
+		return true
+	}
+	for _, c := range sc.Hist {
+		if c.Op == "run" {
+			return true
+		}
+	}
+	return false
+}
 
 func (sc *Scenario) String() string {
 	var h []string
@@ -68,6 +88,9 @@ func (sc *Scenario) String() string {
 	}
 	if len(sc.Shared) > 0 {
 		s += fmt.Sprintf(" shared=%v/%s", sc.Shared, sc.SharedMode)
+	}
+	if sc.Shared2 {
+		s += " (second Task objects)"
 	}
 	if sc.Rerun {
 		s += " rerun"
@@ -108,7 +131,7 @@ func declared(sc *Scenario) *model {
 	m := &model{n: sc.N, present: make([]bool, sc.N), deps: make([][]int, sc.N), retries: make([]int, sc.N)}
 	for _, c := range sc.Hist {
 		switch c.Op {
-		case "add":
+		case "add", "add2":
 			m.present[c.A] = true
 		case "dep":
 			m.present[c.A] = true
@@ -191,8 +214,10 @@ func (m *model) closureSet(v int) map[int]bool {
 
 // Finding is one oracle failure.
 type Finding struct {
-	Prop string
-	Msg  string
+	Prop  string
+	Msg   string
+	Known string // signature of a recorded finding (known_findings.json) this failure is an instance of, "" otherwise
+	AtEnd bool   // produced by the end-of-run oracles (meaningless for an execution that was cut off)
 }
 
 // Obs summarises an execution for outcome counting and conformance.
@@ -221,6 +246,8 @@ type Counters struct {
 	SharedEnters   int64
 	ReadyWhileRun  int64 // quiescent states in which a task was running and none was ready (bound respected)
 	Leaks          int64 // executions that ended with a library goroutine parked forever after Run had returned
+	Sorts          int64 // DepthFirstSort results judged
+	Quiescent2     int64 // quiescent states in which the second graph was examined
 }
 
 func (c *Counters) Add(o *Counters) {
@@ -234,6 +261,8 @@ func (c *Counters) Add(o *Counters) {
 	c.SharedEnters += o.SharedEnters
 	c.ReadyWhileRun += o.ReadyWhileRun
 	c.Leaks += o.Leaks
+	c.Sorts += o.Sorts
+	c.Quiescent2 += o.Quiescent2
 }
 
 type attemptRec struct {
@@ -253,22 +282,27 @@ type run struct {
 	findings []Finding
 	cnt      Counters
 
-	tasks    []*dag.Task
-	sentinel []error
+	tasks        []*dag.Task
+	tasks2       []*dag.Task // second Task object per ID (same function)
+	sentinel     []error
+	multi        bool  // Run is called more than once
+	failedBefore bool  // a task had failed or a cancellation had been requested when the current Run started
+	before       []int // attempts per task when the current Run started
 
-	attempts  [][]*attemptRec // per task
-	running   []int           // per task: concurrently executing count (across graphs)
-	runningG  [2]int          // per graph
-	peak      int
-	awaiting  []*attemptRec
-	released  map[*attemptRec]bool
-	returned  [2]bool
-	runErr    [2]error
-	nGraphs   int
-	failed    bool // some task returned a final non-skip error, or a cancellation was requested
-	cancelled bool
-	order     []string
-	lastExit  *attemptRec
+	attempts   [][]*attemptRec // per task
+	running    []int           // per task: concurrently executing count (across graphs)
+	runningG   [2]int          // per graph
+	peak       int
+	awaiting   []*attemptRec
+	released   map[*attemptRec]bool
+	returned   [2]bool
+	runErr     [2]error
+	nGraphs    int
+	failed     bool // some task returned a final non-skip error, or a cancellation was requested
+	taskFailed bool // some task returned a final non-skip error
+	cancelled  bool
+	order      []string
+	lastExit   *attemptRec
 
 	out       []byte   // bytes received by the buffered-output writer
 	outMarks  []string // chunk markers in arrival order
@@ -278,7 +312,7 @@ type run struct {
 }
 
 func (r *run) fail(prop, format string, a ...any) {
-	r.findings = append(r.findings, Finding{prop, fmt.Sprintf(format, a...)})
+	r.findings = append(r.findings, Finding{Prop: prop, Msg: fmt.Sprintf(format, a...)})
 }
 
 type hctx struct {
@@ -344,7 +378,11 @@ func execute(sc *Scenario, ch verifrt.Chooser, trace func(string), por bool) ([]
 		r.capacity = 1 << 30
 	}
 	res := verifrt.Run(verifrt.Config{Chooser: ch, MaxSteps: 4000, TickBudget: 200000, Trace: trace}, func() { r.main() })
+	nBefore := len(r.findings)
 	r.final(res)
+	for i := nBefore; i < len(r.findings); i++ {
+		r.findings[i].AtEnd = true
+	}
 	obs := r.obs(res)
 	return r.findings, obs, r.cnt, res
 }
@@ -427,7 +465,7 @@ func (r *run) body(i int, ctx context.Context) error {
 					r.fail("C13", "task %s attempts are not ordered by happens-before", tid(i))
 				}
 			}
-			if len(prev) > r.m.retries[i] && !sc.Rerun {
+			if len(prev) > r.m.retries[i] && !r.multi {
 				r.fail("C13", "task %s entered %d times with %d retries configured", tid(i), len(prev)+1, r.m.retries[i])
 			}
 		}
@@ -487,6 +525,10 @@ func (r *run) body(i int, ctx context.Context) error {
 
 	// ---- exit
 	rec.result = r.script(i, rec.attempt)
+	ctxErr := rec.result == "cerr" // an error of the task's own that wraps context.DeadlineExceeded while the run's context is live
+	if ctxErr {
+		rec.result = "err"
+	}
 	rec.exited = true
 	r.running[i]--
 	r.runningG[g]--
@@ -504,6 +546,10 @@ func (r *run) body(i int, ctx context.Context) error {
 	default:
 		if g == 0 && rec.attempt >= r.m.retries[i] {
 			r.failed = true
+			r.taskFailed = true
+		}
+		if ctxErr {
+			return fmt.Errorf("%w: %w", r.sentinel[i], context.DeadlineExceeded)
 		}
 		return r.sentinel[i]
 	}
@@ -522,14 +568,18 @@ func (r *run) attemptsOf(task, graph int) []*attemptRec {
 func (r *run) main() {
 	sc := r.sc
 	n := sc.N
+	r.multi = sc.Multi()
 	r.attempts = make([][]*attemptRec, n)
 	r.running = make([]int, n)
+	r.before = make([]int, n)
 	r.tasks = make([]*dag.Task, n)
+	r.tasks2 = make([]*dag.Task, n)
 	r.sentinel = make([]error, n)
 	for i := 0; i < n; i++ {
 		i := i
 		r.sentinel[i] = fmt.Errorf("task-%s-failed", tid(i))
 		r.tasks[i] = dag.NewTask(tid(i), r.taskFn(i, 0))
+		r.tasks2[i] = dag.NewTask(tid(i), r.taskFn(i, 0))
 	}
 	g := dag.NewGraph("g")
 	g.TickerDuration = time.Millisecond
@@ -547,16 +597,6 @@ func (r *run) main() {
 	if sc.Buffer {
 		w = &outWriter{r}
 		g.SetOutputBuffer(w)
-	}
-	for _, c := range sc.Hist {
-		switch c.Op {
-		case "add":
-			g.AddTask(r.tasks[c.A])
-		case "dep":
-			g.TaskDependsOn(r.tasks[c.A], r.tasks[c.B])
-		case "retries":
-			g.TaskRetries(r.tasks[c.A], c.B)
-		}
 	}
 	var ctx context.Context = context.Background()
 	if sc.Cancel {
@@ -617,33 +657,187 @@ func (r *run) main() {
 			}
 		})
 	}
+	// the construction history; `run` and `sort` calls in it are judged against the graph declared so far
+	full := r.m
+	for idx, c := range sc.Hist {
+		switch c.Op {
+		case "add":
+			g.AddTask(r.tasks[c.A])
+		case "add2":
+			g.AddTask(r.tasks2[c.A])
+		case "dep":
+			g.TaskDependsOn(r.tasks[c.A], r.tasks[c.B])
+		case "retries":
+			g.TaskRetries(r.tasks[c.A], c.B)
+		case "sort":
+			r.m = declared(&Scenario{N: sc.N, Hist: sc.Hist[:idx]})
+			r.checkSort(g)
+		case "run":
+			r.m = declared(&Scenario{N: sc.N, Hist: sc.Hist[:idx]})
+			r.startRun()
+			err := g.Run(ctx, nil, nil)
+			r.endRun(err)
+			r.judgeMidRun(err)
+		}
+	}
+	r.m = full
 	if len(sc.Shared) > 0 {
 		g2 := dag.NewGraph("g2")
 		if sc.SharedMode == "serial" {
 			g2.SetSerial()
 		}
 		for _, t := range sc.Shared {
-			g2.AddTask(r.tasks[t])
+			if sc.Shared2 {
+				g2.AddTask(r.tasks2[t])
+			} else {
+				g2.AddTask(r.tasks[t])
+			}
 		}
 		verifrt.Go(func() {
 			r.runErr[1] = g2.Run(context.WithValue(ctx, graphKey{}, 1), nil, nil)
 			r.returned[1] = true
 		})
 	}
+	r.startRun()
 	r.runErr[0] = g.Run(ctx, nil, nil)
+	r.endRun(r.runErr[0])
+	if sc.Rerun {
+		err2 := g.Run(ctx, nil, nil)
+		verifrt.Emit("return2", fmt.Sprint(err2 != nil), 0)
+	}
+}
+
+func (r *run) startRun() {
+	r.returned[0] = false
+	r.failedBefore = r.failed
+	for t := range r.before {
+		r.before[t] = len(r.attemptsOf(t, 0))
+	}
+}
+
+func (r *run) endRun(err error) {
 	r.returned[0] = true
 	verifrt.Emit("return", "", 0)
-	for t := 0; t < n; t++ {
+	for t := 0; t < r.sc.N; t++ {
 		for _, a := range r.attemptsOf(t, 0) {
 			if !a.exited {
 				r.fail("C14", "Run returned while task %s was still executing", tid(t))
 			}
 		}
 	}
-	if sc.Rerun {
-		err2 := g.Run(ctx, nil, nil)
-		verifrt.Emit("return2", fmt.Sprint(err2 != nil), 0)
+}
+
+// startedInThisRun lists the tasks entered since the current Run began.
+func (r *run) startedInThisRun() []string {
+	var out []string
+	for t := 0; t < r.sc.N; t++ {
+		if len(r.attemptsOf(t, 0)) > r.before[t] {
+			out = append(out, tid(t))
+		}
 	}
+	return out
+}
+
+// judgeMidRun judges a Run that is followed by further construction calls (reduced oracle: rejection of cycles and
+// definition errors, nil exactly when everything ran; the per-enter oracles have already judged the ordering).
+func (r *run) judgeMidRun(err error) {
+	m := r.m
+	for _, c := range r.sc.Hist {
+		if c.Op == "retries" && c.B < 0 {
+			return
+		}
+	}
+	if m.cycle || m.defError {
+		if err == nil {
+			r.fail("C16", "graph definition has %s but an intermediate Run returned nil", map[bool]string{true: "a dependency cycle", false: "a definition error"}[m.cycle])
+		}
+		if st := r.startedInThisRun(); m.cycle && len(st) > 0 {
+			r.fail("C16", "graph has a dependency cycle but %v were started by an intermediate Run", st)
+		}
+		if m.cycle && !m.defError && err != nil && !errors.Is(err, dag.ErrorGraphHasCycle) && !r.failedBefore {
+			r.fail("C16", "graph has a dependency cycle and no other definition error but the intermediate Run's error is not ErrorGraphHasCycle: %v", err)
+		}
+		return
+	}
+	if r.taskFailed {
+		if err == nil {
+			r.fail("C14", "a task failed but an intermediate Run returned nil")
+		}
+		return
+	}
+	if r.cancelled {
+		return // whether this Run had to observe the cancellation depends on when it was requested: judged on the final Run only
+	}
+	if err != nil {
+		r.fail("C14", "no task failed and no cancellation was requested but an intermediate Run returned an error: %v", err)
+		return
+	}
+	for t := 0; t < r.sc.N; t++ {
+		if !m.present[t] {
+			continue
+		}
+		as := r.attemptsOf(t, 0)
+		if len(as) > 0 && as[len(as)-1].result == "ok" {
+			continue
+		}
+		above := false
+		for _, d := range m.tdeps(t) {
+			ds := r.attemptsOf(d, 0)
+			if len(ds) > 0 && ds[len(ds)-1].result == "skip" {
+				above = true
+			}
+		}
+		if !above && len(as) == 0 {
+			r.fail("C16", "an intermediate Run returned nil but task %s never ran and no ErrorSkipParents explains it", tid(t))
+		}
+	}
+}
+
+// checkSort judges DepthFirstSort against the graph declared so far: a cycle is reported, otherwise every
+// vertex appears exactly once with its dependencies before it.
+func (r *run) checkSort(g *dag.Graph) {
+	m := r.m
+	order, err := g.DepthFirstSort()
+	if m.cycle {
+		if err == nil {
+			r.fail("C16", "DepthFirstSort: the declared graph has a dependency cycle but no error was returned")
+		} else if !errors.Is(err, dag.ErrorGraphHasCycle) {
+			r.fail("C16", "DepthFirstSort: the declared graph has a dependency cycle but the error is not ErrorGraphHasCycle: %v", err)
+		}
+		return
+	}
+	if err != nil {
+		r.fail("C16", "DepthFirstSort: the declared graph is acyclic but an error was returned: %v", err)
+		return
+	}
+	pos := map[string]int{}
+	for i, v := range order {
+		if _, dup := pos[string(v.ID)]; dup {
+			r.fail("C16", "DepthFirstSort: vertex %s appears twice", v.ID)
+		}
+		pos[string(v.ID)] = i
+	}
+	np := 0
+	for t := 0; t < r.sc.N; t++ {
+		if !m.present[t] {
+			continue
+		}
+		np++
+		pt, ok := pos[tid(t)]
+		if !ok {
+			r.fail("C16", "DepthFirstSort: vertex %s is missing from the result", tid(t))
+			continue
+		}
+		for _, d := range m.deps[t] {
+			if pd, ok := pos[tid(d)]; ok && pd > pt {
+				r.fail("C16", "DepthFirstSort: %s comes before its dependency %s", tid(t), tid(d))
+			}
+		}
+	}
+	if len(order) != np {
+		r.fail("C16", "DepthFirstSort: %d vertices returned, the graph has %d", len(order), np)
+	}
+	r.cnt.Sorts++
 }
 
 // quiescent is called by the environment thread before it lets a task finish.
@@ -658,6 +852,18 @@ func (r *run) quiescent() {
 		return
 	}
 	r.cnt.Quiescent++
+	// the second graph (no edges, unbounded or serial): a shared task that is not executing anywhere and that the
+	// second graph has not started yet must not be kept waiting while the second graph has capacity
+	if len(r.sc.Shared) > 0 && !r.returned[1] {
+		r.cnt.Quiescent2++
+		if !(r.sc.SharedMode == "serial" && r.runningG[1] > 0) {
+			for _, t := range r.sc.Shared {
+				if len(r.attemptsOf(t, 1)) == 0 && r.running[t] == 0 {
+					r.fail("C16", "second graph: task %s is ready, is not executing anywhere and capacity remains, but it was not started while every thread is idle (first graph: %d running, limit %d)", tid(t), r.runningG[0], r.capacity)
+				}
+			}
+		}
+	}
 	if r.runningG[0] >= r.capacity {
 		r.cnt.ReadyWhileRun++
 		return
@@ -670,9 +876,22 @@ func (r *run) quiescent() {
 			skipped[t] = true
 		}
 	}
+	// recorded finding "shared-task-slot": a bounded graph hands a slot to a task whose Task object is executing in
+	// another graph; the slot stays occupied by a goroutine that only waits for that Task's lock
+	slotForForeign := false
+	if len(r.sc.Shared) > 0 && r.capacity < 1<<30 {
+		for _, t := range r.sc.Shared {
+			if r.m.present[t] && len(r.attemptsOf(t, 0)) == 0 && r.running[t] > 0 {
+				slotForForeign = true
+			}
+		}
+	}
 	for t := 0; t < r.sc.N; t++ {
 		if !r.m.present[t] || len(r.attemptsOf(t, 0)) > 0 {
 			continue
+		}
+		if r.running[t] > 0 {
+			continue // executing in the other graph: the shared Task is rightly not started a second time
 		}
 		ready := true
 		for _, d := range r.m.tdeps(t) {
@@ -685,7 +904,12 @@ func (r *run) quiescent() {
 			}
 		}
 		if ready {
-			r.fail("C16", "task %s is ready (all dependencies completed) and capacity remains (%d running, limit %d) but it was not started while every thread is idle", tid(t), r.runningG[0], r.capacity)
+			f := Finding{Prop: "C16", Msg: fmt.Sprintf("task %s is ready (all dependencies completed) and capacity remains (%d running, limit %d) but it was not started while every thread is idle", tid(t), r.runningG[0], r.capacity)}
+			if slotForForeign {
+				f.Known = "shared-task-slot"
+				f.Msg += " [a slot of this graph is occupied by a task that waits for its Task object, which executes in the second graph]"
+			}
+			r.findings = append(r.findings, f)
 		}
 	}
 }
@@ -725,12 +949,14 @@ func (r *run) final(res *verifrt.Result) {
 		if err == nil {
 			r.fail("C16", "graph definition has %s but Run returned nil", map[bool]string{true: "a dependency cycle", false: "a definition error"}[m.cycle])
 		}
-		for t := 0; t < sc.N; t++ {
-			if len(r.attempts[t]) > 0 && m.cycle {
-				r.fail("C16", "graph has a dependency cycle but task %s was started", tid(t))
+		if m.cycle {
+			for _, t := range r.startedInThisRun() {
+				r.fail("C16", "graph has a dependency cycle but task %s was started", t)
 			}
 		}
-		if m.cycle && !m.defError && err != nil && !errors.Is(err, dag.ErrorGraphHasCycle) {
+		// (a graph whose earlier Run failed or was cancelled keeps reporting that failure first; the statement
+		// ranks the cycle only against definition errors, so the identity is not demanded then)
+		if m.cycle && !m.defError && err != nil && !errors.Is(err, dag.ErrorGraphHasCycle) && !r.failedBefore {
 			r.fail("C16", "graph has a dependency cycle and no other definition error but Run's error is not ErrorGraphHasCycle: %v", err)
 		}
 		return
@@ -744,11 +970,11 @@ func (r *run) final(res *verifrt.Result) {
 			finalRes[t] = as[len(as)-1].result
 			// retries: stop at first nil, at most R+1
 			for k, a := range as {
-				if a.result == "ok" && k != len(as)-1 && !sc.Rerun {
+				if a.result == "ok" && k != len(as)-1 && !r.multi {
 					r.fail("C13", "task %s was retried after returning nil", tid(t))
 				}
 			}
-			if !sc.Rerun {
+			if !r.multi {
 				if len(as) > m.retries[t]+1 {
 					r.fail("C13", "task %s ran %d times with %d retries", tid(t), len(as), m.retries[t])
 				}
@@ -768,7 +994,7 @@ func (r *run) final(res *verifrt.Result) {
 	}
 	// responsiveness: a whole polling iteration of Run (from the end of one sleep to the beginning of
 	// the next) that lies entirely after cancel() must have looked at the context
-	if sc.Cancel && !sc.Rerun {
+	if sc.Cancel && !r.multi {
 		cancelledAt, lastWake := -1, 0
 		for _, e := range res.Events {
 			switch {
@@ -804,6 +1030,14 @@ func (r *run) final(res *verifrt.Result) {
 		}
 	}
 
+	// with several Runs, a task may have run in an earlier one, before the edge in question was declared (those
+	// entries were judged at enter time against the graph declared then): only entries of this Run count here
+	ranUnderFinalGraph := func(u int) bool {
+		if r.multi {
+			return len(r.attemptsOf(u, 0)) > r.before[u]
+		}
+		return finalRes[u] != ""
+	}
 	// ---- failures and skips (C14)
 	anyErr := false
 	skipRoot := map[int]bool{}
@@ -824,7 +1058,7 @@ func (r *run) final(res *verifrt.Result) {
 				}
 			}
 			for u := 0; u < sc.N; u++ {
-				if m.closure(u)[t] && finalRes[u] != "" {
+				if m.closure(u)[t] && ranUnderFinalGraph(u) {
 					r.fail("C14", "task %s ran although task %s it (transitively) depends on failed", tid(u), tid(t))
 				}
 			}
@@ -832,7 +1066,7 @@ func (r *run) final(res *verifrt.Result) {
 		if finalRes[t] == "skip" {
 			skipRoot[t] = true
 			for u := 0; u < sc.N; u++ {
-				if m.closure(u)[t] && finalRes[u] != "" {
+				if m.closure(u)[t] && ranUnderFinalGraph(u) {
 					r.fail("C14", "task %s ran although task %s below it returned ErrorSkipParents", tid(u), tid(t))
 				}
 			}
@@ -859,7 +1093,7 @@ func (r *run) final(res *verifrt.Result) {
 			}
 		}
 	}
-	if (anyErr || cancelSeenStep >= 0) && !sc.Rerun {
+	if (anyErr || cancelSeenStep >= 0) && !r.multi {
 		want := neverStarted - silent
 		if nSkippedEntries != want {
 			r.fail("C14", "%d tasks were never started (%d of them above an ErrorSkipParents task) but Run reports %d ErrorTaskSkipped entries, want %d: %v", neverStarted, silent, nSkippedEntries, want, err)
